@@ -228,6 +228,7 @@ def run(ctx):
     shim.import_cluster()
     from vlib.run import Inconclusive
     from sim.world import WorldLimit
+    import gc
     ctx.rule = ("a case is one seeded history (protocol, 1-2 overload rounds of 6 timeouts + 0-1 pending requests, delayed or immediate replacement, "
                 "random answers / late answers / timeouts / new requests, schedule); distinct by the event-order signature of the world trace; "
                 "non-trivial = a replacement was observed")
@@ -240,6 +241,10 @@ def run(ctx):
             ctx.note("stopped by time budget after %d histories" % i)
             break
         seed = base + i
+        # garbage of earlier histories (Session.__del__ -> shutdown() ...) must not run inside this history's world at a moment chosen by
+        # the collector: collect now, keep the cyclic collector off while the history runs (reproducibility from the seed)
+        gc.collect()
+        gc.disable()
         try:
             viol, harness, sig, info, hist = run_history(ctx, seed)
         except WorldLimit:
@@ -247,6 +252,8 @@ def run(ctx):
             continue
         except Exception as e:      # noqa
             raise Inconclusive("history seed %d failed in the harness: %s: %s" % (seed, type(e).__name__, e))
+        finally:
+            gc.enable()
         if harness:
             raise Inconclusive("harness error in history seed %d: %r" % (seed, harness[:2]))
         ctx.case(repr(sig), nontrivial=bool(info.get('replaced')))
